@@ -488,6 +488,8 @@ def step (st : DState) (line : String) : DState × String :=
     (st, bit (Spec.drawingOK st.h top dr))
   | ["RENDER", top, bf] => (st, showM (Model.renderM st.h top (bf == "1")) fun d =>
       s!"{cj (d.nodes.map fun p => p.1 ++ "@" ++ p.2)} {cj (d.clusters.map fun p => p.1 ++ "@" ++ p.2)} {cj (d.edges.map fun e => e.1 ++ ">" ++ e.2.1 ++ ":" ++ (if e.2.2 then "d" else "s"))}")
+  | ["SPEC", "wrapped", r, hdr] => (st, bit (Spec.wrappedB st.g st.h r hdr))
+  | ["SPEC", "spliced", new, s] => (st, bit (Spec.splicedB st.g st.h new s))
   | ["SPEC", "io_ready", top] => (st, bit (Spec.ioReady st.h top))
   | ["IO", "to_dict", top] => (st, showM (Model.toDict st.h top) printDict)
   | ["IO", "from_dict", fresh, d] => match parseDict d with
